@@ -104,6 +104,12 @@ class PDB:
         ims = self.impl_ix.get((trait, self_ty), [])
         if trait_args is not None:
             ims = [im for im in ims if im["trait_args"][1:] == list(trait_args)]
+        elif len(ims) > 1:
+            # several impls of a generic trait for the type (`PartialOrd<HandRank>` and `PartialOrd<u16>`): without
+            # explicit arguments the one whose arguments are the type itself (the default `Rhs = Self`) is meant
+            own = [im for im in ims if all(a_ == self_ty for a_ in im["trait_args"][1:])]
+            if len(own) == 1:
+                ims = own
         return ims[0] if ims else None
 
     def dispatch(self, trait, self_ty, name):
